@@ -34,6 +34,10 @@ CHECKS = {
    text="FeelEval.tla is a big-step semantics of the FEEL core fragment (DMN 1.3 §10.3.2) over the syntax trees of FeelSyntax.tla, with Unspec wherever the standard is silent or its versions differ. TLC enumerates every inner construct in the hole of every outer construct (2677 expressions quick; a third nesting level in thorough) and six scopes binding the free names to numbers, strings, booleans, nulls, lists and contexts; the harness parses the fully parenthesised rendering, evaluates it in a programmatically built scope - and again with irrelevant extra bindings and an extra bottom context - and TLC compares the observed value with Eval (and the two observations with each other).",
    note="About 40% of the (expression, scope) cases are Unspec (kind mismatches such as a non-boolean if condition) and accepted; the count is in the evidence. Numbers stay in a small exact range (C02 owns decimal arithmetic). Trusts TLC, FeelEval.tla's reading of the standard, the harness scope builder.",
    technique="TLA+ executable semantics (FeelEval) as oracle for traces of the real evaluator; expressions enumerated by TLC"),
+ "C13": dict(cat="model_checking", design="DESIGN.md §5 C13",
+   text="Purity.tla states evaluation as a pure action over prepared evaluators x caller scopes; TLC enumerates every history up to the bound (all orders, repetitions and interleavings: 1884 histories of 6 prepared scope-pushing expressions x 2 two-level scopes, 1464 of 4 invocables x 3 inputs of one shared model evaluator), the harness replays them on the real code and Trace_C13 validates the log against the machine: after every step every caller scope renders exactly as initially, every result equals the first result of its (evaluator, scope) pair, pushes and pops recorded by hook H3 balance, and a successful parse leaves the parsing scope as found; in addition every expression of the C01 fragment is evaluated twice in a two-context scope.",
+   note="Scope content is compared through its textual rendering; hook H3 supplies push/pop counts. Trusts TLC and the hook.",
+   technique="TLA+ purity state machine; TLC-generated histories replayed on the real code and validated as traces"),
 }
 NOT_YET = {}
 props = [json.loads(l) for l in open('/verif/properties.jsonl')]
